@@ -167,6 +167,26 @@ CHECKS['C12'] = dict(
          'Three known findings (C12-K1..K3: documented translator design).',
     technique=TECH + '; sentinel taint + inventory scanners on emitted text')
 
+CHECKS['C01'] = dict(
+    engine='pipeline-sim', design='DESIGN.md §4 C01',
+    text='Every program returned by the generator in simulated runs is judged by an independent '
+         'reference type checker on structural snapshots (initialisers, arguments, results, '
+         'branches, assignments, explicit type arguments vs substituted bounds at every type '
+         'occurrence, inheritance obligations). Liberal where the target languages differ; '
+         'sampled seeds, four languages, all switches.',
+    note='Trusted: sim/refcheck.py + sim/refrel.py (about 900 lines). The real javac judges the '
+         'same property on Java text in C02.',
+    technique=TECH + '; invariant checked by a reference type checker on every generated program')
+CHECKS['C05'] = dict(
+    engine='pipeline-sim', design='DESIGN.md §4 C05',
+    text='Every program returned by the generator in simulated runs is walked by an independent '
+         'lexical resolver: visibility of every name use, argument counts (defaults incl. '
+         'inherited ones, varargs, named arguments), mutability of assigned variables/fields, '
+         'regular classes instantiated, type variables in scope, unique and non-reserved '
+         'identifiers, Java capture rule.',
+    note='Trusted: sim/refcheck.py scoping rules. One genuine defect repaired (C05-F1).',
+    technique=TECH + '; invariant checked by an independent scope resolver on every generated program')
+
 NOT_YET = {
 }
 
